@@ -26,6 +26,19 @@ class TV:
     def __hash__(self):
         return hash(self.v)
 
+    # ordered by payload (byValue() sorts (value, key) pairs)
+    def __lt__(self, o):
+        return self.v < o.v
+
+    def __le__(self, o):
+        return self.v <= o.v
+
+    def __gt__(self, o):
+        return self.v > o.v
+
+    def __ge__(self, o):
+        return self.v >= o.v
+
     def __reduce__(self):
         return (TV, (self.v,))
 
